@@ -28,16 +28,36 @@ ASSUMPTIONS = ['the records "that had been written" are what sedfitter\'s own re
                'package authoring and convolution are only a means to obtain realistic records here; a scenario whose '
                'setup stage fails is discarded and counted, not failed']
 PROBES = ['reader_raised', 'exact_prefix_nonempty', 'exact_prefix_empty', 'crash_inside_metadata', 'crash_on_boundary',
-          'live_crash', 'live_enospc', 'observer_reads', 'filter_output_streams', 'with_model_fluxes']
+          'live_crash', 'live_enospc', 'observer_reads', 'filter_output_streams', 'with_model_fluxes', 'synthetic_big_record']
 
 
 def budgets(tier):
     if tier == 'quick':
-        return {'runs': 420, 'max_wall': 100, 'chunk': 6}
+        return {'runs': 700, 'max_wall': 100, 'chunk': 6}
     return {'runs': 3000, 'max_wall': 1500, 'chunk': 4}
 
 
+SIZES = [0, 1, 2, 7, 64, 255, 256, 257, 999, 1000, 1001, 1023, 1024, 1025, 2048, 2500, 4095, 4096, 4097, 5000]
+
+
+def _generate_synthetic(rng, tier):
+    """Records built through the public FitInfo class and written by the real FitInfoFile.write: record sizes far
+    beyond what a small simulated package gives (any size threshold in the writer must be crossed by some history)."""
+    recs = []
+    for _ in range(rng.randint(1, 4)):
+        n = rng.choice(SIZES) if rng.random() < 0.7 else rng.randint(0, 6000)
+        recs.append({'n': n, 'nw': rng.randint(1, 6), 'fluxes': rng.random() < 0.5, 'seed': rng.randrange(1 << 30)})
+    if tier == 'thorough':
+        off = {'mode': 'sample', 'n': 3000, 'seed': rng.randrange(1 << 30), 'all_below': 20000}
+    else:
+        off = {'mode': 'sample', 'n': 250, 'seed': rng.randrange(1 << 30), 'all_below': 1200}
+    return {'family': 'synthetic', 'records': recs, 'offsets': off, 'clock': {'kind': 'steady'}, 'listing_seed': 0,
+            'live': [{'kind': rng.choice(['crash', 'enospc']), 'frac': round(rng.random(), 4)} for _ in range(rng.choice([0, 1, 2]))]}
+
+
 def generate(rng, tier, idx):
+    if rng.random() < 0.3:
+        return _generate_synthetic(rng, tier)
     w = gen_world(rng, n_models=(1, 5), n_wav=(5, 12), n_filters=(2, 3), n_ap=(2, 3), allow_gz=False, allow_subdir=False)
     w['ext_n'] = rng.choice([3, 3, 8, 40])
     nf = len(w['filters'])
@@ -156,7 +176,100 @@ def _run_writer(sc, sim, W, d, lines, outp):
     return res, files
 
 
+def _synthetic_infos(sc):
+    import numpy as np
+    from astropy import units as u
+    from sedfitter.extinction import Extinction
+    from sedfitter.source import Source
+    e = Extinction()
+    e.wav = [0.1, 1., 10.] * u.micron
+    e.chi = [3., 2., 1.] * u.cm ** 2 / u.g
+    infos = []
+    meta = None
+    for k, r in enumerate(sc['records']):
+        g = np.random.default_rng(r['seed'])
+        n, nw = r['n'], r['nw']
+        s = Source()
+        s.name = 'syn%d' % k
+        s.x = float(k)
+        s.y = -float(k)
+        s.valid = [1] * nw
+        s.flux = list(g.uniform(1, 10, nw))
+        s.error = list(g.uniform(.1, 1, nw))
+        info = pipe.FitInfo(s)
+        info.chi2 = np.sort(g.uniform(0, 100, n))
+        info.av = g.uniform(0, 10, n)
+        info.sc = g.uniform(-1, 1, n)
+        info.model_id = g.permutation(n)
+        info.model_name = np.array(['m%05d' % i for i in info.model_id])
+        info.model_fluxes = g.uniform(0, 3, (n, nw)) if r['fluxes'] else None
+        if meta is None:
+            meta = info.meta
+            meta.model_dir = 'synthetic'
+            meta.filters = [{'name': 'F%d' % j, 'aperture_arcsec': 3.0, 'wav': (1.0 + j) * u.micron} for j in range(nw)]
+            meta.extinction_law = e
+        info.meta = meta
+        infos.append(info)
+    return infos
+
+
+def _execute_synthetic(sc, sim, out):
+    infos = _synthetic_infos(sc)
+    outp = sim.path('syn.fitinfo')
+    sim.reset_ordinals()
+    n0 = len(sim.events)
+    r = pipe.call(pipe.write_fit_file, outp, infos)
+    if r[0] != 'ok':
+        out.violate('writer-failed', 'FitInfoFile.write raised %s: %s' % (pipe.exc_name(r), r[1]), key='write/%s' % pipe.exc_name(r))
+        return
+    sizes = [ev[3] for ev in sim.events[n0:] if ev[0] == 'write']
+    cum = []
+    t = 0
+    for x in sizes:
+        t += x
+        cum.append(t)
+    B = env.real_open(outp, 'rb').read()
+    g = pipe.call(pipe.read_fit_sed, outp)
+    if g[0] != 'ok':
+        out.violate('full-read-failed', 'the complete file cannot be read back: %s' % pipe.exc_name(g))
+        return
+    G = [canon_record(x, meta=True) for x in g[1]]
+    W = [canon_record(x, meta=True) for x in infos]
+    out.compared('full-file')
+    if G != W:
+        out.violate('wrong-record', 'the complete file does not read back the %d records that were written' % len(W))
+        return
+    out.probe('synthetic_big_record', sum(1 for r_ in sc['records'] if r_['n'] >= 1000))
+    tp = sim.path('trunc')
+    outcomes = set()
+    offs = _offsets(sc['offsets'], len(B), cum)
+    out.probe('offsets_judged', len(offs))
+    for k in offs:
+        with env.real_open(tp, 'wb') as f:
+            f.write(B[:k])
+        rr = pipe.call(pipe.read_fit_sed, tp)
+        outcomes.add(_judge(out, rr, G, None, 'file syn.fitinfo cut at byte %d of %d' % (k, len(B))))
+        if out.violations:
+            break
+    for lf in sc.get('live', []):
+        if out.violations:
+            break
+        at = min(len(B) - 1, int(lf['frac'] * len(B)))
+        sim.arm('byte', lf['kind'], at, target=sim.rel(outp))
+        os.remove(outp)
+        r = pipe.call(pipe.write_fit_file, outp, infos)
+        sim.faults = []
+        if r[0] not in ('crash', 'exc'):
+            raise env.HarnessError('live fault did not fire')
+        out.probe('live_' + lf['kind'])
+        rr = pipe.call(pipe.read_fit_sed, outp)
+        outcomes.add(_judge(out, rr, G, None, 'live %s at byte %d' % (lf['kind'], at)))
+    out.trace = ['synthetic', [min(r_['n'], 1000) // 250 for r_ in sc['records']], [r_['fluxes'] for r_ in sc['records']], sorted(outcomes)]
+
+
 def _execute(sc, sim, out):
+    if sc.get('family') == 'synthetic':
+        return _execute_synthetic(sc, sim, out)
     W = World(sc['world'])
     rng = random.Random(sc['theta_seed'])
     sc = dict(sc, theta=pipe.theta_for(W, rng, len(W.fspec), dmin=sc['drange'][0]))
@@ -287,6 +400,22 @@ def _execute(sc, sim, out):
 
 
 def lowerings(sc, viol=None):
+    if sc.get('family') == 'synthetic':
+        import re
+        if sc['offsets'].get('mode') != 'list' and viol:
+            m = re.search(r'cut at byte (\d+)', viol['message'])
+            if m:
+                yield dict(sc, offsets={'mode': 'list', 'list': [int(m.group(1))]}, live=[])
+        for i in range(len(sc['records'])):
+            if len(sc['records']) > 1:
+                yield dict(sc, records=sc['records'][:i] + sc['records'][i + 1:])
+        for i, r in enumerate(sc['records']):
+            for n in (0, 1, 2, 1000, 1001):
+                if n < r['n']:
+                    yield dict(sc, records=sc['records'][:i] + [dict(r, n=n)] + sc['records'][i + 1:])
+            if r['fluxes']:
+                yield dict(sc, records=sc['records'][:i] + [dict(r, fluxes=False)] + sc['records'][i + 1:])
+        return
     if sc['offsets'].get('mode') != 'list' and viol:
         import re
         m = re.search(r'cut at byte (\d+)', viol['message'])
